@@ -51,6 +51,18 @@ def _chain(h, cls, n, d):
     return chain, rows, probs
 
 
+def _unchanged(h, chain, rows, probs, d, after):
+    """read-outs must not disturb the stored chain: a later read-out still sees the original rows"""
+    dt = object if h.sym else float
+    n = len(rows)
+    P = np.asarray(chain.get_probabilities(burn=0, thin=1))
+    S = np.asarray(chain.get_sample(burn=0, thin=1))
+    h.same(f"after {after}: stored length unchanged", (P.shape, S.shape), ((n,), (n, d)))
+    if P.shape == (n,) and S.shape == (n, d):
+        h.eq(f"after {after}: stored log-probabilities unchanged", P, np.array(probs, dtype=dt))
+        h.eq(f"after {after}: stored samples unchanged", S, np.array(rows, dtype=dt).reshape(n, d))
+
+
 CLS = ["gibbs", "hmc", "ensemble"]
 Q = [dict(cls=c, n=n, d=d) for c in CLS for (n, d) in [(1, 1), (3, 2), (4, 1)]]
 T = [dict(cls=c, n=5, d=2) for c in CLS]
@@ -75,6 +87,7 @@ def readouts_return_documented_rows(h, cls, n, d):
         h.same(f"get_parameter({i}) first dimension == retained", np.asarray(G).shape, (len(keep),))
         if keep and np.asarray(G).shape == (len(keep),):
             h.eq(f"get_parameter({i}) == column {i} of the retained rows", G, np.array([rows[k][i] for k in keep], dtype=dt))
+    _unchanged(h, chain, rows, probs, d, "the read-outs")
 
 
 @unit("C14", quick=[dict(cls=c, n=4) for c in CLS], max_paths=2000)
@@ -129,6 +142,7 @@ def interval_returns_top_fraction(h, cls, n, count):
     frac = h.real("interval", lo=0, hi=1, lo_strict=True, hi_strict=True)
     S, P = chain.get_interval(interval=frac, burn=burn, thin=thin, samples=count)
     S, P = np.asarray(S), np.asarray(P)
+    _unchanged(h, chain, rows, probs, d, "get_interval")
     size_after_burn = max(n - burn, 0)
     if count is not None:
         thin = max(size_after_burn // count, 1)
